@@ -181,7 +181,7 @@ func faultList(seed []byte, roles []ref.Role, emit func(b []byte, fault string))
 }
 
 func runC03(c *ctx) {
-	c.Rule = "strict reference decoder oracle on: valid encodings; the same with non-minimal length bytes (each item singly, and all at once); every single-point fault of each seed encoding <= 160 bytes (each truncation point raw/patched, 1-3 appended bytes raw/patched, every header/format/length byte set to each of the other 255 values, every payload byte set to {00,01,7F,80,FF} and each bit flipped); targeted faults (NaN/Inf payloads, control messages with text, width remainders); unstructured bytes. non-trivial = the byte string differs from a valid canonical encoding or uses non-minimal lengths; distinct by hash of the bytes"
+	c.Rule = "strict reference decoder oracle on: valid encodings; the same with non-minimal length bytes (each item singly, and all at once); every single-point fault of each seed encoding <= 160 bytes (each truncation point raw/patched, 1-3 appended bytes raw/patched, every header/format/length byte set to each of the other 255 values, every payload byte set to {00,01,7F,80,FF} and each bit flipped); sampled double faults; targeted faults (NaN/Inf payloads, control messages with text, width remainders); unstructured bytes. non-trivial = the byte string differs from a valid canonical encoding or uses non-minimal lengths; distinct by hash of the bytes"
 	c.Assume = []string{"reference decoder internal/ref/decode.go states well-formedness as in the property; self-tested by Decode(Encode(x)) = x"}
 
 	nseed := c.pick(500, 9000)
@@ -295,6 +295,33 @@ func runC03(c *ctx) {
 			c.Sample(map[string]interface{}{"seed_encoding": hex.EncodeToString(b), "faults": "every truncation, append, structural byte value, payload table+bit flips"})
 		}
 		c03Faults(c, b, roles)
+		// double faults: two positions at once (sampled; single faults are enumerated completely above)
+		for k := 0; k < c.pick(200, 1500); k++ {
+			t := append([]byte(nil), b...)
+			for q := 0; q < 2; q++ {
+				j := r.Intn(len(t))
+				if roles[j] == ref.RPayload && r.Bool() {
+					j = r.Intn(len(t)) // prefer structural bytes
+				}
+				switch r.Intn(4) {
+				case 0:
+					t[j] = byte(r.Intn(256))
+				case 1:
+					t[j] ^= 1 << uint(r.Intn(8))
+				case 2:
+					t[j]++
+				default:
+					t[j]--
+				}
+			}
+			if r.Chance(1, 4) {
+				t = t[:r.Intn(len(t)+1)]
+			}
+			if r.Bool() {
+				ref.PatchLen(t)
+			}
+			c03Eval(c, t, "double-fault", true)
+		}
 	})
 
 	// targeted: non-finite floats, width remainders, W-bit on even function
